@@ -298,6 +298,29 @@ theorem parseLit_and_parse_agree_on_escape (isPrint : Nat → Bool) (orc : Parse
   exact ⟨c, _, h1, rfl, h2⟩
 
 
+/-- **Any option set, IgnoreCase included** (what "keeps literal meaning" excludes, stated as what the parser
+    really builds).  `Parse(Escape(s))` never fails: the tree is the root Capture 0 over the concatenation
+    (`Parser.litRoot`: children reversed under RightToLeft) of `Parser.EscKids … s`: `s` cut into the maximal runs
+    of runes `Escape` writes raw and the escaped runes in between, where
+    * an escaped rune `r` gives `newRegexNodeCh(One, toLower r)` under IgnoreCase (`Parser.escNode`), the One
+      node of `r` otherwise;
+    * a run of one rune gives `newRegexNodeCh(One, r)`; a longer run gives ONE Multi node (IgnoreCase cleared)
+      unless IgnoreCase is on and a rune of the run takes part in case conversion — then one
+      `newRegexNodeCh(One, r)` per rune (`Parser.runKidsG`);
+    * `newRegexNodeCh` (`Parser.nodeCh`) under IgnoreCase turns a cased letter into the Set node of the letter
+      and its case equivalences and leaves every other rune a One node.
+    So under IgnoreCase the pattern is still a concatenation of single-rune tests in the order of `s`, each
+    cased letter widened to its case-equivalence set — the reading the property excludes from "literal". -/
+theorem escape_parse_tree_any_options (isPrint : Nat → Bool) (orc : Parser.Oracles)
+    (hW : ∀ c, Generated.metaChars.contains c = true → orc.isWord c = false)
+    (hP : ∀ c, 9 ≤ c → c ≤ 13 → isPrint c = false)
+    (opts : Parser.Opts) (mco : Bool) (s : List Nat) :
+    ∃ ks, Parser.parse { pat := escape isPrint s, opts := opts, mco := mco, orc := orc } =
+        .ok { root := Parser.litRoot opts ks,
+              tables := Parser.noGroupTables { pat := escape isPrint s, opts := opts, mco := mco, orc := orc } } ∧
+      Parser.EscKids { pat := escape isPrint s, opts := opts, mco := mco, orc := orc } isPrint opts s ks :=
+  Parser.ef_parse_any { pat := escape isPrint s, opts := opts, mco := mco, orc := orc } isPrint hW hP s rfl
+
 /-! #### from the tree to the specification -/
 
 /-- the specification pattern the reducer slice assigns to a raw tree read left to right
@@ -414,6 +437,22 @@ def parsedSpelling (E : Parser.Env) : Option (List Nat × List Nat) :=
       (Parser.kidsRunes ks).map fun w => (w, ks.map fun k => k.t.toNat)
     | _ => none
   | _ => none
+
+/-- the node types of the children of the concatenation (9 = One, 11 = Set, 12 = Multi), pattern order -/
+def parsedKinds (E : Parser.Env) : Option (List Nat) :=
+  match Parser.parse E with
+  | .ok t =>
+    match t.root with
+    | .mk .capture _ _ _ _ 0 (-1) [.mk .alternate _ _ _ _ _ _ [c]] =>
+      some ((if c.o.r then c.kids.reverse else c.kids).map fun k => k.t.toNat)
+    | _ => none
+  | _ => none
+
+/-- IgnoreCase: `ab1.` → `ab1\.`: the run `ab1` has letters, so one node per rune — two Sets and a One — then the
+    One of the escaped `.`; the run `12` (nothing takes part in case conversion) stays one Multi -/
+example : parsedKinds (envA { i := true } (escape asciiPrint [97, 98, 49, 46])) = some [11, 11, 9, 9] := by
+  decide +kernel
+example : parsedKinds (envA { i := true } (escape asciiPrint [49, 50, 46])) = some [12, 9] := by decide +kernel
 
 /-- `a.b` → `a\.b`: three One nodes -/
 example : parsedSpelling (envA {} (escape asciiPrint [97, 46, 98])) = some ([97, 46, 98], [9, 9, 9]) := by
